@@ -143,6 +143,7 @@ ANSWER_ACTIONS = ("HitMsg", "HitWire", "Chase", "GetEntry", "HitScoped", "Lease"
                   "SubQueryWrite", "CutWrite", "ProofWrite", "HitCut", "HitDenial", "PrefetchStart",
                   "PrefetchComplete", "Purge", "TickA")
 SIM_CHAIN = ["al", "md", "tg"]
+NEG_CHAIN = ["al", "md", "ng"]
 
 
 def run_api(ctx):
@@ -201,6 +202,29 @@ def run_api(ctx):
     # ---- code -> spec ---------------------------------------------------------
     info.update(validate_trace(ctx, "Trace_LeaseAnswer.cfg", trace, len(bl), "C04 API", res.get("violations"), inp, "c04-lease"))
     ctx.cov["replay"]["c04_api"] = info
+    # ---- the same with an alias chain that ends in a name that does not exist: composed NXDOMAIN replies,
+    # every third one a bare denial without SOA (the lineage of the terminal hop has no record to ride on)
+    ctx.tlc("Lease", "MC_LeaseAnswer.tla", "MC_LeaseAnswer_negchain.cfg", workers=6, timeout=900, heap="6g", tag="answer-negchain")
+    numn = num // 3
+    behn = sim_behaviours(ctx, "MC_LeaseAnswer.tla", "Sim_LeaseAnswerNeg.cfg", numn, 40, {"now", "reply", "req", "nextId"})
+    bln = answer_behaviours(behn, NEG_CHAIN, "n")
+    if len(bln) < numn // 2:
+        raise vf.MachineryError("only %d negative-chain behaviours generated" % len(bln))
+    tracen = os.path.join(ctx.scratch, "c04_api_neg.ndjson")
+    inpn = {"chain": NEG_CHAIN, "negKey": "ng", "scopedKey": "sc", "ecsCap": 3, "cutMax": 600,
+            "behaviours": bln, "traceOut": tracen}
+    resn = ctx.go_driver("./c04", "TestLeaseReplay", inpn, name="c04_api_neg", timeout=1500)
+    ctx.take_driver_result(resn, "[C04 API, negative chain] ")
+    if resn.get("skipped"):
+        raise vf.MachineryError("C04 negative-chain replay skipped: %s" % resn["skipped"][:3])
+    cn = resn.get("counters", {})
+    if cn.get("op_Chase", 0) == 0 or cn.get("steps", 0) < 8 * len(bln):
+        raise vf.MachineryError("vacuous negative-chain replay: %s" % cn)
+    infon = {"behaviours": len(bln), "steps": cn.get("steps", 0), "drift": resn["drift"],
+             "drift_notes": resn.get("drift_notes", []), "counters": cn}
+    infon.update(validate_trace(ctx, "Trace_LeaseAnswerNeg.cfg", tracen, len(bln), "C04 API negative chain",
+                                resn.get("violations"), inpn, "c04-lease"))
+    ctx.cov["replay"]["c04_api_negchain"] = infon
     return info
 
 
